@@ -17,12 +17,23 @@ LEVEL_TEXT = (
     "inferred type of the expression and of every sub-expression is compared with exact rational evaluation at corner, extreme and random points "
     "of the leaves' declared types (lower <= value <= upper, integer-typed => integer value); Boolean and user-typed expressions must get exactly "
     "their type; every ordered pair of a pool of 24 operand kinds (incl. a type hierarchy three levels deep with two branches) is used to build Equals(l,r) and Equals(r,l), each in its own fresh environment, "
-    "which must both be accepted or both rejected. Replaces the SMT query of the quantifier text by sampling: weaker on infinite domains."
+    "which must both be accepted or both rejected. Replaces the SMT query of the quantifier text by sampling: weaker on infinite domains. In the thorough tier the "
+    "repository's own test-suite is re-run with a pass-through wrapper on TypeChecker.get_type: arithmetic results are judged by exact evaluation under 16 random "
+    "first-order interpretations, every Equals verdict is compared with the verdict for the mirrored operand types."
 )
-LEVEL_NOTE = "Trusted: vk/ref/evalx.py, vk/gen/interp.py (corner/extreme points), read-only accessors of Type (lower_bound, upper_bound, is_int_type...)."
+LEVEL_NOTE = (
+    "Trusted: vk/ref/evalx.py, vk/gen/interp.py (corner/extreme points), read-only accessors of Type (lower_bound, upper_bound, is_int_type...). "
+    "Suite monitor (vk/mon/universal.install_types): trusted are also pytest/xdist and the monkey-patched wrapper; each distinct (type checker, expression) is "
+    "judged once; only roots + - * / are evaluated (leaf types are declarations); division by a non-constant, quantifiers, timing / agent-dot / "
+    "interpreted-function nodes are counted as don't-care / unjudged; leaves take a corner of their declared interval with probability 0.6; the mirrored "
+    "Equals verdict is obtained from TypeChecker.walk_equals with the operand types swapped (no node is built, nothing the test owns is touched)."
+)
 RULE = (
     "cases = numeric expression recipes (<= ~10 nodes) over a fixed pool of 12 numeric fluents with all bound forms + all ordered operand pairs for the "
-    "symmetry part; evaluations = expressions judged + operand pairs judged; distinct_nontrivial = distinct expressions with at least one finite inferred bound."
+    "symmetry part; evaluations = expressions judged + operand pairs judged; distinct_nontrivial = distinct expressions with at least one finite inferred bound. "
+    "Thorough tier only: one run of unified_planning/test under M-types; one evaluation = one arithmetic expression judged (suite:M-types:judged; Equals verdicts are "
+    "counted as suite:M-types:equalities); witnesses carry the test id (\"suite\": true) and are replayed by re-running that test file under the monitor; "
+    "inconclusive if the suite ran and fewer than 200 arithmetic expressions or fewer than 300 equalities were judged."
 )
 ASSUMPTIONS = ["division only by non-zero constants", "soundness is sampled at corner/extreme points, not proved"]
 BOUNDS = {"quick": dict(n=640, per=8, cap=40), "thorough": dict(n=48000, per=12, cap=96)}
@@ -67,7 +78,16 @@ def plan(tier, seed):
     return specs
 
 
+SUITE = (("types",), "M-types:judged")
+
+
 def run_shard(spec, res):
+    if spec["tier"] == "thorough" and spec["shard"] == 1:
+        # the repository's own test-suite re-run with the universal monitor M-types installed (DESIGN §4): every type the
+        # TypeChecker infers for an arithmetic expression and every Equals it accepts / rejects during the tests is judged
+        from vk.mon import suite as _suite
+
+        _suite.feed(res, PROPERTY, _suite.run_suite(SUITE[0]), SUITE[1])
     if spec.get("symmetry"):
         symmetry(res, spec["tier"])
     for key in spec["cases"]:
@@ -78,6 +98,11 @@ def run_shard(spec, res):
 
 
 def replay(witness, res):
+    if witness.get("suite"):
+        from vk.mon import suite as _suite
+
+        _suite.replay_suite(res, PROPERTY, SUITE[0], SUITE[1], witness)
+        return
     if witness.get("symmetry"):
         symmetry(res, witness.get("tier", "quick"), only=witness["symmetry"])
     else:
@@ -278,4 +303,8 @@ def thresholds(m):
     for k, n in (("with_finite_bound", 300), ("div_nodes", 100), ("times_nodes", 100), ("equality_pairs", 500)):
         if c.get(k, 0) < n:
             out.append(f"{k} observed {c.get(k, 0)} < {n}")
+    from vk.mon import suite as _suite
+
+    out.extend(_suite.thresholds(c, SUITE[1], 200))
+    out.extend(_suite.thresholds(c, "M-types:equalities", 300))
     return out
